@@ -58,3 +58,27 @@ package cesium
 //@   loop 2 invariant forall k ChannelKey :: (forall j int :: 0 <= j && j < len(chs) ==> chs[j] != k) ==> __in(db.mu.dbs.unary, k) == old(__in(db.mu.dbs.unary, k)) && __in(db.mu.dbs.virtual, k) == old(__in(db.mu.dbs.virtual, k))
 //@   loop 2 modifies db.mu.dbs.unary, db.mu.dbs.virtual
 //@   loop 0 modifies nothing
+
+//@ # ---------------------------------------------------------------- reopening (C02: "reopening the database succeeds")
+//@ # Channel creation makes the directory first and renames meta.json into place last, so a crash
+//@ # can leave a numeric directory without meta.json. SpecDirHasMeta(key) says the directory of that key holds
+//@ # one (ghost, uninterpreted). Open hands every numeric directory to openVirtualOrUnary, which
+//@ # fails for one without a meta file and thereby fails the whole Open. The assertion states what
+//@ # the property needs at that call; nothing in Open establishes it, so it FAILS (known finding,
+//@ # /verif/findings/c02_half_created_channel_test.go; an existing test pins the behaviour).
+//@ spec func SpecDirHasMeta(key int) bool
+//@ ignorepkg github.com/synnaxlabs/x/signal
+//@ ignorepkg go.uber.org/zap
+//@ ignorepkg github.com/synnaxlabs/alamos
+//@ ignorepkg fmt
+//@ ignorepkg io/fs
+//@ ignore func newOptions() *options
+//@ ignore func openFS() error
+//@ ignore func (o *options) Report() alamos.Report
+//@ ignore func openRelay() *relay
+//@ ignore func (db *DB) startGC()
+//@ ignore func (db *DB) openVirtualOrUnary() error
+//@ func Open(ctx context.Context, dirname string, opts ...Option) (db *DB, err error)
+//@   pragma opaque_func_values
+//@   assert_before "err = db.openVirtualOrUnary(ctx, Channel{Key: ChannelKey(key)})" SpecDirHasMeta(key)
+//@   loop 0 modifies nothing
